@@ -158,6 +158,17 @@ class UsertypeFluentsRemover(engines.engine.Engine, CompilerMixin):
             new_kind.set_conditions_kind("EXISTENTIAL_CONDITIONS")
             new_kind.set_conditions_kind("EQUALITIES")
             new_kind.set_conditions_kind("NEGATIVE_CONDITIONS")
+        # a Boolean assignment whose value is not a constant (`b := (5 <= x)`) is split into
+        # `if v then b := true` and `if not v then b := false`
+        if (
+            new_kind.has_fluents_in_boolean_assignments()
+            or new_kind.has_static_fluents_in_boolean_assignments()
+            or new_kind.has_interpreted_functions_in_boolean_assignments()
+        ):
+            new_kind.set_effects_kind("CONDITIONAL_EFFECTS")
+            new_kind.set_conditions_kind("NEGATIVE_CONDITIONS")
+            if new_kind.has_interpreted_functions_in_boolean_assignments():
+                new_kind.set_conditions_kind("INTERPRETED_FUNCTIONS_IN_CONDITIONS")
         return new_kind
 
     def _compile(
